@@ -99,10 +99,25 @@ func validateQ4Size(path string, eds *rsmt2d.ExtendedDataSquare) error {
 }
 
 // openQ4 opens an existing Q4 file under given FS path.
+// The file must hold the whole quadrant: a Q4 file that is still being written, or was left
+// partially written by an interrupted put, is rejected. Otherwise the missing shares would be
+// read as tail padding and served as if they were parity data.
 func openQ4(path string, hdr *headerV0) (*q4, error) {
 	f, err := os.Open(path)
 	if err != nil {
 		return nil, err
+	}
+
+	info, err := f.Stat()
+	if err != nil {
+		_ = f.Close()
+		return nil, fmt.Errorf("getting Q4 file info: %w", err)
+	}
+	odsLn := hdr.SquareSize() / 2
+	expectedSize := int64(hdr.ShareSize()) * int64(odsLn) * int64(odsLn)
+	if info.Size() != expectedSize {
+		_ = f.Close()
+		return nil, fmt.Errorf("file size mismatch: expected %d, got %d", expectedSize, info.Size())
 	}
 
 	return &q4{
